@@ -445,7 +445,11 @@ static bool decode_and_judge(const uint8_t *bytes, size_t sz, const char *what, 
 	}
 	memcpy(in, bytes, sz);
 	rf_wavheader_t *wh = malloc(sizeof(*wh));
-	memset(wh, 0x99, sizeof(*wh));
+	static int no_prefill = -1;
+	if (no_prefill < 0)
+		no_prefill = getenv("VH_NO_PREFILL") != NULL; /* under memcheck the structure stays uninitialised */
+	if (!no_prefill)
+		memset(wh, 0x99, sizeof(*wh));
 	int r = rf_wavheader_decode(in, (unsigned)sz, wh);
 	if (ret)
 		*ret = r;
